@@ -8,3 +8,26 @@ M["unwrap_pair_swapped"] = ("asynq/async_task.py", "            return (unwrap(t
 M["unwrap_dict_loses_key"] = ("asynq/async_task.py", "        return {key: unwrap(value) for key, value in dct.items()}", "        return {key: unwrap(value) for key, value in list(dct.items())[:2]}", ["C01"])
 M["queue_exit_drops_result"] = ("asynq/async_task.py", "                    self._queue_exit(error.result)", "                    self._queue_exit(None)", ["C01"])
 M["call_pure_drops_kwargs"] = ("asynq/decorators.py", "            result = self.fn(*args, **kwargs)\n        return self.task_cls", "            result = self.fn(*args)\n        return self.task_cls", ["C09"])
+
+# ---- C02 -------------------------------------------------------------------------------------
+M["is_blocked_failed_dep_unblocks"] = ("asynq/async_task.py", "        for dependency in self._dependencies:\n            if not dependency.is_computed():\n                return True\n        return False",
+    "        for dependency in self._dependencies:\n            if dependency.is_computed() and dependency._error is not None:\n                return False\n            if not dependency.is_computed():\n                return True\n        return False", ["C02"])
+M["unwrap_list_last_failure_wins"] = ("asynq/async_task.py", "        return [unwrap(item) for item in lst]", "        return [unwrap(item) for item in reversed(lst)][::-1]", ["C02"])
+M["error_rewrapped"] = ("asynq/async_task.py", "            )\n        self.set_error(error)", "            )\n        self.set_error(type(error)(*error.args))", ["C02"])
+M["batch_flush_error_escapes"] = ("asynq/batching.py", "            if not self.is_computed():\n                self.set_error(error)", "            if not self.is_computed():\n                self.set_error(error)\n            raise", ["C02", "C05"])
+M["unwrap_no_typeerror"] = ("asynq/async_task.py", "        raise TypeError(\n            \"Cannot unwrap an object of type '%s': only futures and None are allowed.\"\n            % type(value)\n        )", "        return value", ["C02"])
+M["unset_items_not_completed"] = ("asynq/batching.py", "            if not item.is_computed():\n                # We must ensure all batch items are computed\n                item.set_error(", "            if not item.is_computed() and cancelled:\n                # We must ensure all batch items are computed\n                item.set_error(", ["C02", "C05"])
+
+# ---- C04 -------------------------------------------------------------------------------------
+M["flush_all_pending"] = ("asynq/scheduler.py", "        self._batches.remove(batch)\n        self._flush_batch(batch)\n        return batch", "        self._batches.remove(batch)\n        self._flush_batch(batch)\n        for other in list(self._batches):\n            self._batches.remove(other)\n            if other.items and not other.is_flushed():\n                self._flush_batch(other)\n        return batch", ["C04"])
+M["flush_when_two_pending"] = ("asynq/scheduler.py", "        self._batches.add(batch)\n        return True", "        self._batches.add(batch)\n        if len(self._batches) > 1:\n            self._continue_with_batch()\n        return True", ["C04"])
+M["deps_scheduled_not_reset"] = ("asynq/scheduler.py", "                task._dependencies_scheduled = False\n                task._pause_contexts()", "                task._pause_contexts()", ["C04", "C03"])
+M["dict_values_not_dependencies"] = ("asynq/async_task.py", "    elif type(value) is dict:\n        for item in value.values():\n            extract_futures(item, result)\n    return result", "    return result", ["C04"])
+M["first_dep_only_blocks"] = ("asynq/async_task.py", "        for dependency in self._dependencies:\n            if not dependency.is_computed():\n                return True\n        return False", "        for dependency in self._dependencies:\n            return not dependency.is_computed()\n        return False", ["C04", "C03"])
+
+# ---- C05 -------------------------------------------------------------------------------------
+M["priority_reversed"] = ("asynq/scheduler.py", "best_priority < priority", "best_priority > priority", ["C05"])
+M["priority_ties_other_way"] = ("asynq/scheduler.py", "best_priority < priority", "best_priority <= priority", [])   # equivalent: must stay quiet
+M["wait_for_no_completion_check"] = ("asynq/scheduler.py", "            if task.is_computed():\n                break\n            self._continue_with_batch()", "            self._continue_with_batch()", ["C05"])
+M["flush_batch_no_finally"] = ("asynq/scheduler.py", "        finally:\n            self.on_after_batch_flush(batch)\n        return 0", "        except Exception:\n            raise\n        self.on_after_batch_flush(batch)\n        return 0", ["C05"])
+M["select_keeps_empty_batches"] = ("asynq/scheduler.py", "            if not batch.items or batch.is_flushed():", "            if batch.is_flushed():", [])
